@@ -44,6 +44,19 @@ def build(spec):
         cp = float(spec.get("coupon", 0.0))
         addl = {"coupons": pd.DataFrame({"a": [cp] * n}, index=idx)}
         s = bt.Strategy("r", [Spy()] + gate + trade, [bt.CouponPayingSecurity("a"), bt.Security("b")])
+    elif tree == "flat_tx":
+        # positions booked by quantity (as ReplayTransactions / RFQ fills do): fractional even in whole-unit mode
+        class TxOnce(bt.core.Algo):
+            def __call__(self, target):
+                v = float(target.value)
+                for k, w in (("a", wa), ("b", wb)):
+                    if w:
+                        q = w * v / float(target.universe[k].iloc[-1])
+                        q = math.floor(q) + 0.5
+                        target.transact(q, k)
+                return True
+
+        s = bt.Strategy("r", [Spy()] + gate + [TxOnce()], [bt.Security("a"), bt.Security("b")])
     elif tree == "flat":
         if fi:
             sec = [bt.Security("a"), bt.Security("b")]
@@ -139,7 +152,7 @@ def case(spec):
         else:
             # clean: every security of the whole tree is flat on that date, value equals cash
             for x in secs:
-                if t < len(pos[x.full_name]) and abs(pos[x.full_name][t]) > 1e-9 * maxpos:
+                if t < len(pos[x.full_name]) and not (abs(pos[x.full_name][t]) <= 1e-9 * maxpos):
                     viols.append({"rule": "not_liquidated", "expected": {"node": x.full_name, "date": labels[t], "position": 0.0}, "observed": pos[x.full_name][t]})
             tot_cash = sum(c[t] for c in cash.values())
             if not ref.near(vals[t], tot_cash, S):
@@ -147,7 +160,7 @@ def case(spec):
             # terminal: positions zero, value and cash constant, algos not run again
             for u in range(t + 1, nd):
                 for x in secs:
-                    if u < len(pos[x.full_name]) and abs(pos[x.full_name][u]) > 1e-9 * maxpos:
+                    if u < len(pos[x.full_name]) and not (abs(pos[x.full_name][u]) <= 1e-9 * maxpos):
                         viols.append({"rule": "position_after_bankruptcy", "expected": {"node": x.full_name, "date": labels[u], "position": 0.0}, "observed": pos[x.full_name][u]})
                 if not ref.near(vals[u], vals[t], S):
                     viols.append({"rule": "value_changes_after_bankruptcy", "expected": {"date": labels[u], "value": vals[t]}, "observed": vals[u]})
@@ -206,6 +219,18 @@ def specs(tier, seed):
                     if tier == "quick" and (tree != "flat" or gate != "once") and (fee is not None or not integer) and scale == 1.0:
                         continue
                     out.append({"tree": tree, "gate": gate, "lev": list(lev), "path": list(path), "integer": integer, "fee": fee, "scale": scale, "capital": 1024.0})
+    # quantities booked by transact: fractional holdings in whole-unit mode at the moment of liquidation
+    for path in itertools.product([2, 8], repeat=3):
+        for lev in ((-2.0, 3.0), (-1.5, 2.5)):
+            for integer in (True, False):
+                for fee in (None, "propdec"):
+                    out.append({"tree": "flat_tx", "gate": "once", "lev": list(lev), "path": list(path), "integer": integer, "fee": fee, "capital": 1024.0})
+    # a quote of exactly zero for two dates while a position is open, then a gap
+    for path in ((0, 0, 8, 8), (4, 0, 0, 16), (0, 0, 0, 12), (0, 0, 2, 2), (2, 0, 0, 1)):
+        for lev in ((-2.0, 3.0), (-1.5, 2.5), (1.0, 0.0)):
+            for tree in ("flat", "nested"):
+                for integer in (True, False):
+                    out.append({"tree": tree, "gate": "once", "lev": list(lev), "path": list(path), "integer": integer, "fee": None, "scale": 1.0, "capital": 1024.0})
     # market-value root levered in a coupon-paying security
     for path in itertools.product([4, 5, 6], repeat=3):
         for cp in (1.0, -1.0, 0.25, -2.0):
